@@ -23,7 +23,7 @@ mod tok;
 use gen::{GenCtx, Subject, TYPES};
 use rng::{mix, Rng};
 use serde::{Deserialize, Serialize};
-use sink::{Event, FmtPlan, FmtSink, IoAct, IoPlan, IoSink, SinkSpec};
+use sink::{Event, FmtPlan, FmtSink, IoAct, IoPlan, IoSink, SinkPanic, SinkSpec};
 use std::collections::{BTreeMap, HashSet};
 use std::fmt::Write as _;
 use std::io::Write as _;
@@ -101,7 +101,7 @@ pub fn run_case(case: &Case) -> Outcome {
         }
     };
     out.reference_text = t0.clone();
-    if let Some(msg) = tok::compare(&t0, &subject.expect) {
+    if let Some(msg) = tok::compare(&t0, &subject.expect).or_else(|| tok::shape_mismatch(&t0, &subject.shapes)) {
         out.violation = Some((Class::Layout, msg));
         return out;
     }
@@ -116,6 +116,11 @@ pub fn run_case(case: &Case) -> Outcome {
             out.sink_text = s.text.clone();
             out.history = s.history;
             match res {
+                Err(p) if p.is::<SinkPanic>() => {
+                    // the sink's own panic unwound through the rendering: nothing to judge here; what it must not do is
+                    // leave something behind for the next rendering on this thread (the history check)
+                    *out.faults_fired.entry("fmt_sink_panic".into()).or_default() += 1;
+                }
                 Err(p) => out.violation = Some((Class::Panic, format!("fmt panicked: {}", panic_msg(p)))),
                 Ok(r) => {
                     out.returned_ok = r.is_ok();
@@ -140,6 +145,7 @@ pub fn run_case(case: &Case) -> Outcome {
             out.sink_text = String::from_utf8_lossy(&s.bytes).to_string();
             out.history = s.history;
             match res {
+                Err(p) if p.is::<SinkPanic>() => {}
                 Err(p) => {
                     let m = panic_msg(p);
                     let class = if m.contains("formatting trait implementation returned an error") && !hard { Class::SpuriousError } else { Class::Panic };
@@ -171,6 +177,7 @@ fn plan_kind_fmt(p: &FmtPlan) -> &'static str {
         FmtPlan::Capacity(_) => "capacity",
         FmtPlan::FailSet(_) => "set",
         FmtPlan::Random { .. } => "random",
+        FmtPlan::PanicAt(_) => "panic",
     }
 }
 
@@ -223,8 +230,14 @@ fn cases_for_value(seed: u64, i: u64, thorough: bool) -> Vec<Case> {
     for k in positions(n, &mut r) {
         cases.push(with(SinkSpec::Fmt(FmtPlan::FailOnce(k))));
         cases.push(with(SinkSpec::Fmt(FmtPlan::FailFrom(k))));
+        if (k + i as usize) % 3 == 0 {
+            cases.push(with(SinkSpec::Fmt(FmtPlan::PanicAt(k))));
+        }
     }
     for k in positions(m, &mut r) {
+        if (k + i as usize) % 5 == 0 {
+            cases.push(with(SinkSpec::Io(IoPlan::At(vec![(k, IoAct::Panic)]))));
+        }
         cases.push(with(SinkSpec::Io(IoPlan::At(vec![(k, IoAct::Error)]))));
         cases.push(with(SinkSpec::Io(IoPlan::At(vec![(k, IoAct::Interrupted)]))));
         cases.push(with(SinkSpec::Io(IoPlan::At(vec![(k, IoAct::Short(1))]))));
@@ -424,6 +437,7 @@ fn minimise(mut case: Case, class: &Class, known_keys: &[String]) -> (Case, Outc
                 "error" => Some((i, IoAct::Error)),
                 "wouldblock" => Some((i, IoAct::WouldBlock)),
                 "zero" => Some((i, IoAct::Zero)),
+                "panic" => Some((i, IoAct::Panic)),
                 _ => None,
             })
             .collect();
@@ -868,7 +882,7 @@ fn main() {
     violations = unknown_keys.len() as i32;
     let wall = t0.elapsed().as_secs_f64();
     let rule = "one case = (type, seeded value with presence pattern and dimensions, sink kind, fault plan) executed against the real Display code; \
-for every value the fault-free case, EVERY single-fault position for renderings of at most 320 sink calls - for longer ones the first and last 16 calls and a seeded stride in between - (fmt: reject-once and reject-from at each write_str call; io: error, EINTR, 1-byte short write, and WouldBlock or a zero-length write at each write call) \
+for every value the fault-free case, EVERY single-fault position for renderings of at most 320 sink calls - for longer ones the first and last 16 calls and a seeded stride in between - (fmt: reject-once and reject-from at each write_str call, a panicking sink at every third; io: error, EINTR, 1-byte short write, and WouldBlock or a zero-length write at each write call) \
 and seeded multi-fault plans (capacity, random rejection, fault sets, mixed io faults, all-short) are run; the thorough tier adds EVERY pair of rejected write_str calls for renderings of at most 40 calls. distinct_nontrivial = number of distinct histories \
 (type, presence, dimensions, sink kind, per-call offered/accepted bytes and verdict, return value) among cases in which at least one injected fault actually fired";
     let ev = serde_json::json!({
@@ -896,7 +910,7 @@ and seeded multi-fault plans (capacity, random rejection, fault sets, mixed io f
             "determinism_check": { "values": det_values, "cases": d1.cases, "thread_partitions": [threads, 3], "digest_equal": deterministic, "digest": format!("{:016x}", d1.digest) },
             "real_components": ["num-dual Display impls (8 types) and Derivative::fmt", "nalgebra Matrix Display", "core float formatting and fmt::write", "std io::Write::write_fmt adapter"],
             "stubbed_components": ["the sink: fmt::Write (all-or-nothing) and io::Write (short writes, EINTR, errors) under the simulator's fault plans"],
-            "invariants": ["I1 layout: fault-free text reads as exactly the stored values and symbols", "I2 complete: reported success implies the sink holds the complete text", "I3 no spurious error or panic when the sink accepted everything"],
+            "invariants": ["I1 layout: fault-free text reads as exactly the stored values and symbols; a matrix part of plain numbers, if shown in rows at all, is shown with its own number of rows and columns", "I2 complete: reported success implies the sink holds the complete text", "I3 no spurious error or panic when the sink accepted everything"],
             "known_findings_hit": known_hits,
             "unlisted_finding_keys": unknown_keys,
             "exhaustive": false
